@@ -234,6 +234,18 @@ def trick_contracts(ctx, P) -> None:
         ps_ = [a.arg for a in d.args.args]
         body_calls = [ast.unparse(n) for n in ast.walk(d) if isinstance(n, ast.Call) and ast.unparse(n.func) in ("os.kill", "os.killpg")]
         ok = len(ps_) == 2 and body_calls in ([f"os.killpg(os.getpgid({ps_[0]}), {ps_[1]})"], [f"os.kill({ps_[0]}, {ps_[1]})"])
+        if not ok and len(ps_) == 2 and len(body_calls) == 2:
+            # one definition that chooses at run time by the platform: `if <not Windows>: killpg(...) else: kill(...)`
+            stm = [b for b in d.body if not (isinstance(b, ast.Expr) and isinstance(b.value, ast.Constant))]
+            if len(stm) == 1 and isinstance(stm[0], ast.If) and stm[0].orelse:
+                t_ = stm[0].test
+                if isinstance(t_, ast.Name) and t_.id in tm.consts:
+                    t_ = tm.consts[t_.id]
+                tt_ = ast.unparse(t_)
+                posix, win = (stm[0].body, stm[0].orelse) if tt_ in ("not platform.is_windows()",) else (stm[0].orelse, stm[0].body) if tt_ == "platform.is_windows()" else (None, None)
+                if posix is not None:
+                    calls_of = lambda blk: [ast.unparse(n) for b in blk for n in ast.walk(b) if isinstance(n, ast.Call) and ast.unparse(n.func) in ("os.kill", "os.killpg")]
+                    ok = calls_of(posix) == [f"os.killpg(os.getpgid({ps_[0]}), {ps_[1]})"] and calls_of(win) == [f"os.kill({ps_[0]}, {ps_[1]})"]
         ctx.check(ok, RKC, f"kill_process at line-independent form `{body_calls[0][:40] if body_calls else 'no signal call'}`", f"kill_process({', '.join(ps_)}) does {body_calls}: expected os.killpg(os.getpgid(pid), signal) (the child is a session leader: its own children must go too) or os.kill(pid, signal) on Windows", f"{tm.relpath}:{d.lineno}")
     # ---- ShellCommandTrick.is_process_running
     RSP = ctx.rule("C18/shell-running-predicate", "ShellCommandTrick.is_process_running is true iff a process watcher is still registered or the last process exists and has not exited (the drop-during-process option relies on it)", floor=1)
